@@ -1,6 +1,10 @@
 use std::io::{self, BufRead};
 
+#[cfg(not(kani))]
 use memchr::{memchr, memchr2};
+
+#[cfg(kani)]
+use self::verif_kani::{memchr_model as memchr, memchr2_model as memchr2};
 
 use crate::{Record, record::fields::Bounds};
 
@@ -285,6 +289,10 @@ where
 
     Ok((len, is_eol))
 }
+
+#[cfg(kani)]
+#[path = "/verif/harness/bed/reader_record.rs"]
+mod verif_kani;
 
 #[cfg(test)]
 mod tests {
